@@ -55,4 +55,59 @@ theorem erode_fold (dt : DT) (A : Img Int) (p : List Int)
       rw [this]
       exact ih (fun k hk => hmem k (by simp [hk])) (fun k hk => hnon k (by simp [hk])) v hv
 
+/-! ### the early exit of the inner loop -/
+
+theorem foldl_min_lo (dt : DT) (f : List Int × Int → Int) (sup : List (List Int × Int))
+    (h : ∀ kh ∈ sup, dt.lo ≤ f kh) : sup.foldl (fun v kh => min v (f kh)) dt.lo = dt.lo := by
+  induction sup with
+  | nil => rfl
+  | cons kh t ih =>
+    simp only [List.foldl_cons]
+    have := h kh (by simp)
+    rw [Int.min_eq_left this]
+    exact ih (fun k hk => h k (by simp [hk]))
+
+theorem erodeAtExit_go (dt : DT) (A : Img Int) (p : List Int) (sup : List (List Int × Int))
+    (h : ∀ kh ∈ sup, dt.lo ≤ erodeSub dt (readNearest A (addPos p kh.1)) kh.2) (v : Int) :
+    erodeAtExit.go dt A p sup v =
+      sup.foldl (fun v kh => min v (erodeSub dt (readNearest A (addPos p kh.1)) kh.2)) v := by
+  induction sup generalizing v with
+  | nil => rfl
+  | cons kh t ih =>
+    simp only [erodeAtExit.go, List.foldl_cons]
+    have ht : ∀ k ∈ t, dt.lo ≤ erodeSub dt (readNearest A (addPos p k.1)) k.2 :=
+      fun k hk => h k (by simp [hk])
+    split
+    · next he =>
+      rw [he]
+      exact (foldl_min_lo dt (fun kh => erodeSub dt (readNearest A (addPos p kh.1)) kh.2) t ht).symm
+    · exact ih ht _
+
+
+theorem erodeSub_ge_lo (dt : DT) (hdt : dt.WF ∨ dt = dtBool) (a b : Int) (ha : dt.InRange a)
+    (hb : dt.InRange b) (hb0 : 0 ≤ b ∨ b = dt.lo) : dt.lo ≤ erodeSub dt a b := by
+  rcases hdt with wf | rfl
+  · by_cases he : b = dt.lo
+    · unfold erodeSub
+      simp only [wf.notBool, Bool.false_eq_true, if_false, he, if_true]
+      have := wf.hi_pos; rcases wf.lo_cases with h | h <;> omega
+    · have h0 : 0 ≤ b := by rcases hb0 with h | h; exact h; exact absurd h he
+      rw [erodeSub_spec dt wf a b ha hb h0]
+      simp only [he, if_false]
+      unfold DT.clamp; omega
+  · unfold erodeSub
+    simp only [dtBool, if_true]
+    split <;> decide
+
+theorem erodeAtExit_eq (dt : DT) (hdt : dt.WF ∨ dt = dtBool) (A : Img Int) (sup : List (List Int × Int))
+    (p : List Int) (hs : ∀ d ∈ A.shape, 0 < d) (hA : ∀ q, dt.InRange (A.getD q 0))
+    (hB : ∀ kh ∈ sup, dt.InRange kh.2 ∧ (0 ≤ kh.2 ∨ kh.2 = dt.lo)) :
+    erodeAtExit dt A sup p = erodeAt dt A sup p := by
+  unfold erodeAtExit erodeAt
+  apply erodeAtExit_go
+  intro kh hkh
+  apply erodeSub_ge_lo dt hdt _ _ _ (hB kh hkh).1 (hB kh hkh).2
+  rw [readNearest_eq A _ hs]
+  exact hA _
+
 end Mahotas.C01
